@@ -993,9 +993,11 @@ pub fn judge_c19(ctx: &Ctx, h: &History, trace: &Trace) -> Vec<Violation> {
             push("C19.exit-status", format!("`any {query:?}` ended with {:?} (directory before: {}); stderr: {}", c.exit, prior_class(ctx, trace, i), c.stderr.lines().last().unwrap_or("")));
             continue;
         }
-        let stdout_results = match c.stdout.find("# Description of constants used") {
-            Some(p) if *describe => c.stdout[..p].to_string(),
-            _ => c.stdout.clone(),
+        // colour is presentation (it depends on TERM / NO_COLOR), not content
+        let plain = strip_ansi(&c.stdout);
+        let stdout_results = match plain.find("# Description of constants used") {
+            Some(p) if *describe => plain[..p].to_string(),
+            _ => plain.clone(),
         };
         match seen.get(&(query.clone(), *exact)) {
             None => {
